@@ -174,6 +174,14 @@ def corpus(v, level):
     add('Segment:children', lambda: (lambda s: (setattr(s, 'pid_1', '1'), setattr(s, 'pid_5', 'AB'), s.to_er7(ec),
                                                 report(s), [c.version for c in treeinv.walk(s)])[2:])(
         core.Segment('PID', version=v, validation_level=level)))
+    add('Segment:MSH-1-2', lambda: (lambda sg: (setattr(sg, 'msh_1', '|'), setattr(sg, 'msh_2', '^~\\&'),
+                                                setattr(sg, 'msh_3', 'app'), sg.to_er7(ec),
+                                                [c.version for c in treeinv.walk(sg)])[3:])(
+        core.Segment('MSH', version=v, validation_level=level)))
+    # Field._set_value special case for MSH-1 (the value holds no delimiter of any default set used here)
+    add('Field:MSH_1.value', lambda: (lambda f: (setattr(f, 'value', '|'), f.to_er7(ec),
+                                                 [c.version for c in treeinv.walk(f)])[1:])(
+        core.Field('MSH_1', version=v, validation_level=level)))
     add('Segment:z', lambda: (lambda s: (setattr(s, 'zzz_3', 'ab'), s.to_er7(ec))[-1])(
         core.Segment('ZZZ', version=v, validation_level=level)))
     def nested():
